@@ -35,6 +35,7 @@ type Scenario struct {
 	ConnErrs  int     `json:"connect_errors"`
 	Sched     []byte  `json:"sched"`
 	SchedSeed uint64  `json:"sched_seed"`
+	Preempt   int64   `json:"preempt,omitempty"` // see simrt.SetPreempt
 }
 
 // URL renders the request.
@@ -334,6 +335,7 @@ func GenScenario(faulty bool) func(rt *rapid.T) Scenario {
 		}
 		s.Sched = rapid.SliceOfN(rapid.Byte(), 0, 32).Draw(rt, "sched")
 		s.SchedSeed = rapid.Uint64().Draw(rt, "schedseed")
+		s.Preempt = rapid.SampledFrom([]int64{0, 0, 5, 40, 400}).Draw(rt, "preempt")
 		return s
 	}
 }
